@@ -403,7 +403,8 @@ Definition namespace (t : cli_table) (sub : bytes) (cli : list (key * option byt
 Section Config.
 Variable cfg_defaults : dict.      (* the kwargs.get(key, default) lines of Config.__init__, in order *)
 
-(* Config.__init__(self, **kwargs): vars(self) afterwards; a kwarg called "self" is a TypeError *)
+(* Config.__init__(self, **kwargs): vars(self) afterwards; a kwarg called "self" is a TypeError (reachable only from
+   vars(args) / explicit options, i.e. from a dest called "self": load_config filters the file's keys) *)
 Definition cfg_init (kw : dict) : result dict :=
   if dmem s_self kw then Err TypeE
   else Ok (map (fun kd => (fst kd, dgetd (fst kd) kw (snd kd))) cfg_defaults).
@@ -416,9 +417,11 @@ Definition select_file (has_toml : bool) (ftoml fjson : option dict) : dict :=
   | None => match fjson with Some d => d | None => [] end
   end.
 
+(* only keys that are attributes of the Config object are taken from the file:
+   config_update.update({key: value for key, value in config_file_dict.items() if key in config_update}) *)
 Definition load_config (has_toml : bool) (ftoml fjson : option dict) (c : dict) : result dict :=
   let d := select_file has_toml ftoml fjson in
-  if dempty d then Ok c else cfg_init (dupdate c d).
+  if dempty d then Ok c else cfg_init (dupdate c (filter (fun kv => dmem (fst kv) c) d)).
 
 Definition cfg_update (c kw : dict) : result dict := cfg_init (dupdate c kw).
 
